@@ -344,16 +344,23 @@ func (sortedSet *SortedSet) ZRemRangeByScore(min float64, max float64, mode int)
 // ZRemRangeByRank removes member ranking within [start, stop]
 // sort by ascending order and rank starts from 0
 func (sortedSet *SortedSet) ZRemRangeByRank(start int64, stop int64) int64 {
-	if stop < 0 {
-		stop = sortedSet.ZCard() + stop
-	}
+	size := sortedSet.ZCard()
 	if start < 0 {
-		start = sortedSet.ZCard() + start
+		start = size + start
+		if start < 0 {
+			start = 0
+		}
 	}
-	if start >= stop || start < 0 {
+	if stop < 0 {
+		stop = size + stop
+	}
+	if stop >= size {
+		stop = size - 1
+	}
+	if start > stop || start >= size {
 		return 0
 	}
-	removed := sortedSet.skiplist.removeRangeByRank(start, stop)
+	removed := sortedSet.skiplist.removeRangeByRank(start+1, stop+1)
 	for _, element := range removed {
 		sortedSet.dict.Delete(element.Member)
 	}
